@@ -28,7 +28,7 @@ import c07_gen as G  # noqa: E402
 PROP = 'C07'
 THEOREMS = ['C07_noninterference', 'C07_guarded_complete', 'C07_cond_sound', 'C07_cond_complete',
             'C07_registration', 'C07_registration_outside_policy', 'C07_registration_nontrivial',
-            'C07_registration_leaf']
+            'C07_registration_leaf', 'C07_registration_children', 'C07_registration_monotone']
 IMPL = os.path.join(lib.VERIF, 'harness', 'impl', 'c07_impl.py')
 WORK = os.path.join(lib.CACHE, 'c07')
 
@@ -52,11 +52,11 @@ def gen_cases(tier):
     """-> (placements {pid: pl}, cases [dict(line, pid, kind, feats, depth, stream)])"""
     rnd = lib.rng('C07')
     thorough = tier == 'thorough'
-    npl = 48 if thorough else 7
-    nq = 230 if thorough else 42
-    nseed = 45 if thorough else 12
-    nmal = 16 if thorough else 5
-    nreg = 40 if thorough else 10
+    npl = 24 if thorough else 7
+    nq = 200 if thorough else 42
+    nseed = 40 if thorough else 12
+    nmal = 12 if thorough else 5
+    nreg = 30 if thorough else 10
     pls, cases = {}, []
 
     for i, c in enumerate(corpus()):
@@ -398,7 +398,7 @@ def run(tier):
     import time
     t0 = time.time()
     stage = {}
-    pf = lib.proof_stage(rep, PROP, THEOREMS, thorough=thorough)
+    pf = lib.proof_stage(rep, PROP, THEOREMS, extra_targets=['theories/C07/Refuted.vo'], thorough=thorough)
     exe, blog = lib.build_model('c07', 'ExtractC07.v', 'c07_main.ml', 'C07_ext')
     stage['proof_and_extraction_s'] = round(time.time() - t0, 1)
 
@@ -505,8 +505,14 @@ def run(tier):
         q, so = shrink_query(pls, spec_path, c, o, fails)
         f = c['line'].split('\t')
         pl = pls[c['pid']]
+        why_txt = '; '.join(so['why'][:2])
+        if len(why_txt) > 420:
+            why_txt = why_txt[:200] + ' ... ' + why_txt[-200:]
+        head = ('the WHERE formula filtering a protected type\'s storage is not that type\'s policy formula: '
+                if 'WHERE formula' in why_txt and 'range variable' not in why_txt
+                else 'generated SQL reads a protected type\'s storage outside its policy filter: ')
         rep.violation(
-            'generated SQL reads a protected type\'s storage outside its policy filter: ' + '; '.join(so['why'][:2])
+            head + why_txt
             + (f' [matches the input predicate of {k}, which is not in known_findings.json]' if k else ''),
             {'case': f'Q\t{f[1]}\t{f[2]}\t{q}', 'original_case': c['line'], 'placement': _pl_json(pl),
              'policy_ddl': pl['ddl'], 'spec': G.spec_line(pl), 'tree': so['tree'], 'why': so['why'],
